@@ -7,6 +7,14 @@ CLAIMED = {
    text='Decides, on every CFG path of sort_ex/visit, the DFS shape clauses the ordering property needs: visiting add/remove pairing on all exits, emission only after the hard and loop-control adjacency loops completed and exactly when marked visited, hard fields feed hard adjacency only and weak fields weak adjacency only, every key visited, result built from the emission order, callers never swallow CycleError. The soft-cycle tolerance counters are not decided.',
    note=NOTE,
    technique='static analysis: statement CFG path queries (dominance / must-pass-through with condition correlation), def-use of adjacency maps, who-catches scan'),
+ 'C15': dict(
+   text='Decides for pool.py (Block, BasePool, Pool), on every CFG path including exceptional exits of awaits and closed over spawned tasks: the counting ledger cap-(live+pending+closing) returns to zero at every entry point; every connection-opening call is capacity-guarded in its atomic segment or a reasoned compensation; ledger fields have frozen single writers; lend typestate (idle stack entry/exit sites, in_use only set when lending, removed connections reach the disconnect and are never idle-stacked); database affinity of acquire/connect. Quota arithmetic and timing are not decided.',
+   note=NOTE + ' Exception model: only awaits and explicit raise statements raise; asserts hold. _NaivePool and pool2.py are out of scope.',
+   technique='static analysis: counting effect system (abstract interpretation of counter deltas over a CFG with exceptional and spawn edges, inter-procedural summaries by fixpoint), dominance within atomic segments, who-may-write tables, argument provenance'),
+ 'C16': dict(
+   text='Decides the hand-off disciplines eventual service depends on: idle connection => wake-up in the same atomic segment; a woken waiter leaving by any exception (incl. cancellation) passes the wake-up on; waiter counters restored on all exits; connect-failure handler reaches retry or abort_waiters on every path; every path of Pool._acquire to the wait registers a demand or is dominated by a test implying the block has a connection (explicit implication table); no phantom pending connection (ledger); tick kept alive. Fairness itself is not decided.',
+   note=NOTE + ' Exception model as C15 plus CancelledError at awaits of client-awaited coroutines.',
+   technique='static analysis: CFG must-pass-through / dominance queries, path enumeration with a small explicit implication table, counting effect system shared with C15'),
 }
 
 _PENDING = 'check not built yet in this round (design in DESIGN.md §3); will be claimed when its rules are armed'
